@@ -98,12 +98,25 @@ AllocBurst(p, k) ==
   /\ UNCHANGED <<chans, connected>>
   /\ last' = [op |-> "allocBurst", who |-> p, k |-> k]
 
+\* a channel created at the very moment the association comes up is opened by both paths at once
+\* (CreateDataChannel sees the transport connected; SCTPTransport.Start finds it among the pending ones):
+\* whatever the interleaving it ends up with one id, taken once
+OpenRace(p) ==
+  /\ Tick /\ connected /\ Len(chans[p]) < MaxChans
+  /\ LET c == OpenOne([id |-> NoId, explicit |-> FALSE, negotiated |-> FALSE, origin |-> "local", closed |-> FALSE], p, used[p])
+         q == Other(p)
+     IN /\ chans' = [chans EXCEPT ![p] = Append(@, c), ![q] = Append(@, [c EXCEPT !.origin = "remote"])]
+        /\ used' = [used EXCEPT ![p] = @ \cup {c.id}, ![q] = @ \cup {c.id}]
+  /\ UNCHANGED connected
+  /\ last' = [op |-> "openRace", who |-> p]
+
 Next == /\ UNCHANGED connectAt
         /\ IF n = connectAt /\ ~connected THEN Connect
            ELSE \/ \E p \in Peers, e \in ExplicitIds \cup {NoId} : Create(p, e)
                 \/ \E e \in ExplicitIds : CreateNegotiated(e)
                 \/ \E p \in Peers, i \in 1..MaxChans : Close(p, i)
                 \/ \E p \in Peers, k \in {2, 3} : AllocBurst(p, k)
+                \/ \E p \in Peers : OpenRace(p)
         /\ path' = IF RecordPath THEN Append(path, last') ELSE path
 
 \* ---- normative statements
